@@ -68,7 +68,7 @@ class Gen:
 
     def item(self, depth):
         r = self.rng
-        kinds = ["copy", "copy", "copy", "generic", "generic", "generic", "sr_alu", "sr_dm", "const", "sync", "for", "for", "if"]
+        kinds = ["copy", "copy", "copy", "generic", "generic", "generic", "sr_alu", "sr_dm", "sr_x64", "copy64", "const", "sync", "for", "for", "if"]
         k = r.choice(kinds)
         if depth >= 3 and k in ("for", "if"):
             k = r.choice(["copy", "generic"])
@@ -81,6 +81,11 @@ class Gen:
             return mc_ir.t_stream("snax_alu", "add", self.buf(False), self.buf(False), self.buf(False), u).split("\n")
         if k == "sr_dm":
             return mc_ir.t_stream("snax_xdma", "add", self.buf(False), self.buf(False), self.buf(False), u).split("\n")
+        if k == "sr_x64":
+            a, b, c = (r.choice(["%e0", "%e1"]) for _ in range(3))
+            return mc_ir.t_stream("snax_xdma", "add", a, b, c, u, el="i64").split("\n")
+        if k == "copy64":
+            return [mc_ir.t_copy(r.choice(["%e0", "%e1"]), r.choice(["%e0", "%e1"]), ty="memref<64xi64>")]
         if k == "const":
             return [f"%k{u} = arith.constant {r.randrange(100)} : index"]
         if k == "sync":
@@ -107,6 +112,8 @@ class Gen:
              "  %c0 = arith.constant 0 : index", "  %c1 = arith.constant 1 : index"]
         for b in self.bufs:
             L.append(f"  {b} = memref.alloc() : memref<64xi32>")
+        L.append("  %e0 = memref.alloc() : memref<64xi64>")
+        L.append("  %e1 = memref.alloc() : memref<64xi64>")
         if self.adv:
             for i in range(r.choice([1, 2])):
                 base = r.choice(self.bufs)
@@ -335,11 +342,11 @@ Definition orc2 : roracle := mkROracle (fun _ _ => 2%nat) (fun _ _ => true).
 Definition orc3 : roracle := mkROracle (fun _ _ => 3%nat) (fun _ _ => false).
 (* races over the sampled oracles; the one with the smallest class (0 = inside the proved class)
    is reported: [a; b; class] or [] *)
-Definition l2_eval (c : list opinfo * list rstmt) : list Z :=
-  let '(flat, t) := c in
+Definition l2_eval (c : list opinfo * list Z * list rstmt) : list Z :=
+  let '(flat, bars, t) := c in
   let races := flat_map (fun o => all_races (rrunl o t [])) [orc2; orc3; orc 0; orc 1; orc 2; orc 5] in
   let cl := map (fun xy => let a := hd 0 (o_name (fst xy)) in let b := hd 0 (o_name (snd xy)) in
-                       (classify_pair flat (list_eqb Z.eqb (tl (o_name (fst xy))) (tl (o_name (snd xy)))) a b, a, b)) races in
+                       (classify_pair2 flat bars (list_eqb Z.eqb (tl (o_name (fst xy))) (tl (o_name (snd xy)))) a b, a, b)) races in
   match find (fun r => fst (fst r) =? 0) cl with
   | Some (c0, a, b) => [a; b; c0]
   | None => match cl with (c0, a, b) :: _ => [a; b; c0] | [] => [] end
@@ -348,20 +355,41 @@ Definition l2_eval (c : list opinfo * list rstmt) : list Z :=
 KLASS = {0: None, 1: "alias_via_view", 2: "cross_level", 3: "ctl_between"}
 
 
-def guarded_barriers(mod):
-    """after dispatch-regions: is some barrier nested in an scf.if on the core id?"""
+def after_passes(mod):
+    """insert-sync-barrier -> dispatch-regions -> snax-to-func on the real module; returns a list of problems:
+    a barrier under a core guard, a DM/compute op (by the property's classification) that is not under the
+    guard of its core, a barrier lost by snax-to-func"""
     from snaxc.transforms.dispatch_regions import DispatchRegions
+    from snaxc.transforms.snax_to_func import SNAXToFunc
     from props import c14
+    problems = []
     DispatchRegions(nb_cores=2).apply(mc_ir.xctx(), mod)
-    bad = 0
+    mod.verify()
+    nsync = 0
     for op in mod.walk():
+        guards = []
+        p = op.parent_op()
+        while p is not None and p.name != "func.func":
+            if p.name == "scf.if" and c14._cmp_const(p.cond) is not None:
+                guards.append(int(c14._cmp_const(p.cond)))
+            p = p.parent_op()
         if op.name == "snax.cluster_sync_op":
-            p = op.parent_op()
-            while p is not None and p.name != "func.func":
-                if p.name == "scf.if" and c14._cmp_const(p.cond) is not None:
-                    bad += 1
-                p = p.parent_op()
-    return bad
+            nsync += 1
+            if guards:
+                problems.append("a barrier is under a core-specific guard after dispatch-regions")
+        else:
+            k = mc_ir.spec_kind(op)
+            inner = op.parent_op() is not None and mc_ir.spec_kind(op.parent_op()) != "KOther"
+            if k != "KOther" and not inner:
+                want = 1 if k == "KDM" else 0
+                if guards != [want]:
+                    problems.append(f"{op.name} ({k}) is not under the guard of core {want} after dispatch-regions (guards: {guards})")
+    SNAXToFunc().apply(mc_ir.xctx(), mod)
+    mod.verify()
+    ncalls = sum(1 for op in mod.walk() if op.name == "func.call" and op.callee.string_value() == "snax_cluster_hw_barrier")
+    if ncalls != nsync:
+        problems.append(f"snax-to-func turned {nsync} cluster barriers into {ncalls} barrier calls")
+    return problems
 
 
 def run_l2(ctx, texts_in):
@@ -369,18 +397,18 @@ def run_l2(ctx, texts_in):
     for text in texts_in:
         try:
             flat, bars, t, conv, mod = run_real(text)
-            if guarded_barriers(mod):
-                fails.append({"what": "a barrier is under a core-specific guard after dispatch-regions", "text": text, "klass": None})
+            for pr in sorted(set(after_passes(mod))):
+                fails.append({"what": pr, "text": text, "klass": None})
         except Unsupported as e:
             fails.append({"what": "convert", "detail": str(e), "text": text, "klass": None})
             continue
         except Exception as e:
             fails.append({"what": "pass crash / invalid IR", "detail": repr(e)[:300], "text": text, "klass": None})
             continue
-        cases.append(f"({coq_flat(flat)}, {coq_tree(t)})")
+        cases.append(f"({coq_flat(flat)}, {vlib.zlist(bars)}, {coq_tree(t)})")
         meta.append(text)
     shards = [cases[i:i + SH] for i in range(0, len(cases), SH)]
-    texts = [HEADER + L2_DEFS + f"Definition cs : list (list opinfo * list rstmt) := {coqlist(sh)}.\nEval vm_compute in map l2_eval cs.\n"
+    texts = [HEADER + L2_DEFS + f"Definition cs : list (list opinfo * list Z * list rstmt) := {coqlist(sh)}.\nEval vm_compute in map l2_eval cs.\n"
              for sh in shards]
     res = vlib.coq_eval_many("c13l2_", texts, timeout=600)
     for si, (ok, out) in enumerate(res):
@@ -452,10 +480,55 @@ PROBES = [
 ]
 
 
+CORPUS = [
+    # the last access of a buffer goes through a view, then the allocation is freed: the dealloc clause
+    # (triggered by the alloc / subview) must put a barrier before the dealloc
+    """func.func @f(%a0 : memref<64xi32>, %a1 : memref<64xi32>, %n : index, %cond : i1) {
+  %b0 = memref.alloc() : memref<64xi32>
+  %b1 = memref.alloc() : memref<64xi32>
+  %v0 = memref.subview %b0[0][64][1] : memref<64xi32> to memref<64xi32, strided<[1]>>
+  """ + mc_ir.t_generic(["%v0"], ["%b1"], 1).replace("ins(%v0 : memref<64xi32>)", "ins(%v0 : memref<64xi32, strided<[1]>>)") + """
+  "memref.dealloc"(%b0) : (memref<64xi32>) -> ()
+  func.return
+}""",
+    # two blocks, dispatchable ops in both, a barrier and a dealloc in the second
+    """func.func @f(%a0 : memref<64xi32>, %a1 : memref<64xi32>, %n : index, %cond : i1) {
+  %b0 = memref.alloc() : memref<64xi32>
+  "memref.copy"(%a0, %b0) : (memref<64xi32>, memref<64xi32>) -> ()
+  cf.br ^bb1
+^bb1:
+  """ + mc_ir.t_generic(["%b0"], ["%a1"], 1) + """
+  "memref.copy"(%a1, %a0) : (memref<64xi32>, memref<64xi32>) -> ()
+  "memref.dealloc"(%b0) : (memref<64xi32>) -> ()
+  func.return
+}""",
+    # an xDMA streaming region whose kernel has an extension's op class on undeclared operand types is
+    # compute work: it must be synchronised with the DM copy feeding it (and dispatched to the compute core)
+    """func.func @f(%a0 : memref<64xi32>, %a1 : memref<64xi32>, %n : index, %cond : i1) {
+  %e0 = memref.alloc() : memref<64xi64>
+  %e1 = memref.alloc() : memref<64xi64>
+  "memref.copy"(%e1, %e0) : (memref<64xi64>, memref<64xi64>) -> ()
+  """ + mc_ir.t_stream("snax_xdma", "add", "%e0", "%e0", "%e1", 1, el="i64") + """
+  func.return
+}""",
+    # loop body whose last cross-core op is the compute op
+    """func.func @f(%a0 : memref<64xi32>, %a1 : memref<64xi32>, %n : index, %cond : i1) {
+  %c0 = arith.constant 0 : index
+  %c1 = arith.constant 1 : index
+  %b0 = memref.alloc() : memref<64xi32>
+  scf.for %i = %c0 to %n step %c1 {
+    "memref.copy"(%a0, %b0) : (memref<64xi32>, memref<64xi32>) -> ()
+    """ + mc_ir.t_generic(["%b0"], ["%a1"], 1) + """
+  }
+  func.return
+}""",
+]
+
+
 def search(ctx, deep=False):
     rng = ctx.rng
     n = ctx.n(80, 500) * (3 if deep else 1)
-    texts = []
+    texts = list(CORPUS)
     for i in range(n):
         t = gen_case(rng, adversarial=(i % 4 == 3))
         texts.append(t)
